@@ -205,6 +205,8 @@ pub fn build<Data: GarnishData>(parse_root: usize, parse_tree: Vec<ParseNode>, d
                 index
             }
         };
+        // where this root's instructions start, used below to tell whether it emitted any
+        let root_start = data.get_instruction_len();
         let mut stack = vec![root_index];
 
         while let Some(node_index) = stack.pop() {
@@ -249,7 +251,9 @@ pub fn build<Data: GarnishData>(parse_root: usize, parse_tree: Vec<ParseNode>, d
 
         for end_instruction in end_instructions {
             match last_instruction.clone().and_then(|i| data.get_instruction(i)) {
-                Some(instruction) if instruction == end_instruction => {}
+                // already terminated by its own last instruction; an instruction of an earlier root does not count,
+                // a root that emitted nothing (an empty group) still needs its terminator
+                Some(instruction) if instruction == end_instruction && data.get_instruction_len() > root_start => {}
                 _ => {
                     data.push_instruction(end_instruction.0, end_instruction.1)?;
                     instruction_metadata.push(InstructionMetadata::new(None));
